@@ -98,10 +98,12 @@ def single_case(g: Gen, sc: str, degenerate: str | None = None):
     return op, args
 
 
-def collection_case(g: Gen, sc: str, degen_rate=0.25, mixed_scale=False):
+def collection_case(g: Gen, sc: str, degen_rate=0.25, mixed_scale=False, big=None):
     """a case whose arguments are collections (or a mix of single objects and collections)"""
     r = g.rng
     shape = g.free_shape() or (r.randint(1, 3),)
+    if big:
+        shape = big          # at least 64 positions: the size-dependent code paths (batched kernels, fast paths)
     npos = int(np.prod(shape))
     per = []
     for _ in range(npos):
@@ -166,6 +168,23 @@ def check_cases(ctx, cases, sigprefix, tag=lambda c: ""):
         ctx.count(f"{sc}:{'ok' if a[0] == 'ok' else a[1]}")
         ctx.count("shape:" + "x".join(str(s) for s in max((x.data.shape[:x.nfree] for x in args), key=len)) or "single")
         msg = compare_obj(ans, res)
+        if not msg:
+            # the method form of the same call (`a.join(b, ...)` / `a.meet(b, ...)`, as the documentation uses it) must give the
+            # same outcome as the function: value, exception class and dependence mask
+            impl0 = args[0].impl()
+            meth = getattr(impl0, op, None)
+            if meth is not None:
+                import inspect
+                try:
+                    inspect.signature(meth).bind(*args[1:])       # the two-argument methods do not exist for three arguments
+                except TypeError:
+                    meth = None
+            if meth is not None:
+                resm = call_impl(meth, *[x.impl() for x in args[1:]])
+                msgm = compare_obj(ans, resm)
+                if msgm:
+                    ctx.count("method-form:differs")
+                    msg, res = "method form: " + msgm, resm
         if msg:
             kindsig = "value"
             if res[0] == "err" or a[0] == "err":
